@@ -215,6 +215,13 @@ def getByPDH (md5 : Str → Str) (s : Script) : Result :=
 def collectionGet (md5 : Str → Str) (s : Script) : Result :=
   if s.req.length = 27 then getByUUID s else getByPDH md5 s
 
+/-- A sequence of requests served by one long-lived `Conn` (the controller creates a single
+federation.Conn and uses it for every request): `Conn` holds only the cluster configuration and
+its backends, `CollectionGet` keeps no state, so every request is answered as if it were the
+first — the k-th result is `collectionGet` of the k-th script. -/
+def collectionGetSeq (md5 : Str → Str) (history : List Script) : List Result :=
+  history.map (collectionGet md5)
+
 /-- Did the client have to give up (cancel its context) for the call to return? -/
 def needsClientCancel (md5 : Str → Str) (s : Script) : Bool :=
   if s.req.length = 27 then
